@@ -162,6 +162,16 @@ func (e *Engine) irPubs() [][]byte {
 	return out
 }
 
+// posOf: file:line of a harness call, for messages about that call site.
+func (e *Engine) posOf(fn *ssa.Function, in *ssa.Call) string {
+	p := fn.Prog.Fset.Position(in.Pos())
+	f := p.Filename
+	if i := strings.LastIndex(f, "/"); i >= 0 {
+		f = f[i+1:]
+	}
+	return f + ":" + strconv.Itoa(p.Line)
+}
+
 func (e *Engine) vcall(fn *ssa.Function, s *St, in *ssa.Call, ip int, short string, args []Value) (next []succ, fin []Out, cont bool) {
 	set := func(v Value) ([]succ, []Out, bool) { s.env[in] = v; return nil, nil, true }
 	tag := func() string { return cStr(args[0]) }
@@ -467,9 +477,17 @@ func (e *Engine) vcall(fn *ssa.Function, s *St, in *ssa.Call, ip int, short stri
 			}
 			return set(UnitV{})
 		}
+		// per call site: paths that arrived and paths that survived. A site where none survives is an
+		// unsatisfiable assumption: everything after it is discharged vacuously, which job.go reports
+		site := e.posOf(fn, in)
+		cnt := e.assumeSites[site]
+		cnt[0]++
 		if !e.feasible(s.State, c) {
+			e.assumeSites[site] = cnt
 			return nil, nil, false
 		}
+		cnt[1]++
+		e.assumeSites[site] = cnt
 		s.State.pc = And(s.pc, c)
 		return set(UnitV{})
 	case "vCover", "vCoverIf", "vRequire":
